@@ -195,7 +195,10 @@ impl World {
                     if let Op::MintRuid(entries) = op {
                         let evs: Vec<MintNonFungibleResourceEvent> = self.ledger.extract_events_of_type(c);
                         let ids: Vec<NonFungibleLocalId> = evs.into_iter().flat_map(|e| e.ids.into_iter()).collect();
-                        assert_eq!(ids.len(), entries.len());
+                        if ids.len() != entries.len() {
+                            self.generator_mismatch.push(format!("RUID mint of {} entries produced {} distinct ids (transaction {})", entries.len(), ids.len(), self.tx_counter));
+                            entries.truncate(ids.len());
+                        }
                         for (k, l) in ids.iter().enumerate() {
                             let mut buf = tx_hash.0.to_vec();
                             buf.extend_from_slice(&(k as u32).to_le_bytes());
